@@ -469,6 +469,8 @@ def t11_coll(run, fx):
 
 
 def check(run, fx, tier, floors=True):
+    import ignored
+    ignored.run_for(run, fx, 'C11', floors)
     import speclayout
     speclayout.rule_layouts(run, fx, "T11-LAYOUT", ["woff2"], floors)
     if floors or fx.body("<woff2::collection::FontEntry as binary::read::ReadBinary>::read") is not None:
